@@ -6,10 +6,10 @@ PROPS = {
     "C04": dict(
         lean_modules=["PalomaModel.Props.C04", "PalomaModel.Props.Consts.C04", "PalomaModel.Props.Translated.C04", "PalomaModel.Props.Translated.C06"], gen=["Consts.lean", "ConstTable.lean", "Translated.lean"],
         harness_test="TestC04",
-        extra_tests=[{"test": "TestC04Keeper", "dir": "C04K", "n_quick": 300, "n_thorough": 2500}],
+        extra_tests=[{"test": "TestC04Keeper", "dir": "C04K", "n_quick": 300, "n_thorough": 2500}, {"test": "TestC04Reassign", "dir": "C04R", "n_quick": 120, "n_thorough": 1200}],
         n_quick=3000, n_thorough=40000, thorough_seeds=8,
         # ops whose model output is exactly what the property demands
-        spec_ops=["median", "evidence", "gas", "addev", "enc", "evp"],
+        spec_ops=["median", "evidence", "gas", "addev", "enc", "evp", "endblock", "reassign", "attest"],
         rule="per case: random snapshot (1-7 validators; tiny/equal/random/huge shares, optionally scaled by up to 9*2^199 so exact-2/3 boundaries survive), "
              "partition of validators over 1-3 evidence values with abstainers and outsiders, gas-estimate multisets over the full uint64 range incl. edge values, "
              "AddEvidence re-submission histories; distinct = distinct canonical input text; non-trivial = at least one submission",
@@ -71,12 +71,12 @@ PROPS = {
         harness_test="TestBridge", env={"VERIF_PROP": "C13"},
         extra_tests=[{"test": "TestC13Prune", "dir": "C13B", "n_quick": 400, "n_thorough": 4000}],
         n_quick=120, n_thorough=1500, thorough_seeds=8, timeout_quick=900,
-        spec_ops=["evidence", "prune"],
+        spec_ops=["evidence", "prune", "pubevidence", "pending", "published", "confirm"],
         rule="bridge generator (see C01) with 22% evidence ops: a recorded checkpoint of any batch at any stage of its life (built, re-estimated, cancelled, executed) signed by a validator's real secp256k1 key "
              "is replayed by a third party as MsgSubmitBadSignatureEvidence — genuine (must be refused), forged timeout / forged estimate (jails the signer), or signed by an unregistered key (refused); "
              "distinct = distinct op text; non-trivial = at least one accepted op",
         trusted_base=[SDK_TRUST, "ECDSA recover/verify soundness and keccak collision freeness: a checkpoint is identified by (token, batch nonce, gas estimate, content variant)",
-                      "bridge re-deployment (new compass id) while a batch is open is outside the property's quantifier and is not generated", "one remote account per validator on the bridge chain (key registry of the model)"],
+                      "ECDSA recovery over bytes other than the handler's re-derived digest yields an unregistered address; deployment ids are compared as indices", "one remote account per validator on the bridge chain (key registry of the model)"],
         assumptions=[],
     ),
     "C11": dict(
@@ -146,7 +146,7 @@ PROPS = {
                      # the bridge module's EndBlock with collaborators that panic (batch build, tally, time-out sweep)
                      {"test": "TestC09Sky", "dir": "C09S", "n_quick": 40, "n_thorough": 400}],
         n_quick=8, n_thorough=8, thorough_seeds=4, timeout_quick=900, timeout_thorough=5000, env_thorough={"VERIF_BLOCKS": "10100"},
-        spec_ops=["block", "gate", "endblock", "attestch"],
+        spec_ops=["block", "gate", "endblock", "attestch", "attestref"],
         level_text="PARTIAL. Lean 4 theorems: the per-message loops of the consensus end-blocker treat a failing message exactly as if it were absent (failing_message_is_skipped, every_message_gets_its_turn; tied to the source by the regenerated fact that no statement inside those loops leaves the function with an error); the fee arithmetic on the end-block path is total with explicit error outcomes for every multiplicator (missing, negative, astronomically large) and estimate, and — by decide over the inventory "
                    "regenerated from the typed source on every run (call-graph reachability from every module's Begin/EndBlock, stopping at functions that install a recover) — every explicit panic, Must* call, narrowing sdkmath conversion, sdkmath division, "
                    "unchecked type assertion and slice-to-array conversion on the block path is a harmless kind or individually justified. Panics inside the SDK / wasm / IBC and resource exhaustion are outside the inventory: the full application is fuzzed with hostile values "
@@ -184,7 +184,7 @@ PROPS = {
         harness_test="TestC07",
         n_quick=300, n_thorough=3000, thorough_seeds=6, timeout_quick=900,
         # the attestation verdict and the success effects printed by the driver are the property's own subject
-        spec_ops=["attest", "attestev"],
+        spec_ops=["attest", "attestev", "used"],
         rule="keeper layer on the full app with an active EVM chain: messages of every action type put in the queue, estimate election, real validator signatures, the real expected call data (compass ABI) wrapped in a real ethtypes.Transaction + receipt, "
              "evidence from a quorum through CheckAndProcessAttestedMessages (one scenario through real MsgAddEvidence txs and the real end blocker); corruptions: single/multi-field edits of the call data, wrong signature-prefix length, failed receipt, "
              "re-submission of a used tx, evidence before estimate election; distinct = distinct op text; non-trivial = an attestation attempt reached the action attester",
@@ -198,7 +198,7 @@ PROPS = {
         # that user's own transactions — a create by somebody else under any spelling of the id never alters a stored job
         extra_tests=[{"test": "TestC17", "dir": "C17", "n_quick": 150, "n_thorough": 1500}],
         n_quick=700, n_thorough=1500, thorough_seeds=6, timeout_quick=900,
-        spec_ops=["dnh", "cbh", "lnh", "create", "jobs"],  # directed histories: denom hand-over, batch-confirmation attempts, light-node licences / client records
+        spec_ops=["dnh", "cbh", "lnh", "xdh", "create", "jobs"],  # directed histories: denom hand-over, batch-confirmation attempts, light-node licences / client records
         rule="multi-message transactions incl. messages that declare NO signer and ride on other messages' signatures (creator = sender / grantee / victim / third party), light-node histories (licences by sale, purchase or legacy grant; register / authenticate as time jumps; strangers running the open migration or acting in another principal's name with and without a fee grant); "
              "full application; for every one of the 41 Msg RPCs (message zoo) and every identity-bearing field: signed by A for itself (B bystander); signed by A with creator = B without / with a fee grant B->A; creator A with one identity field pointed at B; "
              "message built for B but creator/signer A; governance-only messages signed by a user (three variants) and delivered as executed proposal; forged metadata.signers; the monitor diffs every store entry attributed to the victim "
